@@ -101,7 +101,7 @@ pub fn checks(tier: Tier) -> Vec<Check> {
     vec![Check {
         name: "C02.scalar-model".into(),
         strategy: strategy(),
-        cases: tier.scale(150_000, 20),
+        cases: tier.scale(600_000, 10),
         exec: Box::new(crate::ops::exec),
         oracle: Box::new(crate::mops::oracle),
         classify: Box::new(classify),
